@@ -255,6 +255,8 @@ def run(ctx):
                 if line.startswith("plant ok"):
                     seq_names.add(op.get("keyName"))
             elif k == "migrate":
+                for n in seq_names:      # Migrate (re)binds kids that equal a key name: whatever New published for such a kid is void
+                    published.pop(n, None)
                 bound |= seq_names  # binds only kids equal to key names (uuids of orphan keys); never a kid New published
             if k in ("sign", "resolve", "decrypt", "decryptjwe") and re.match(r"\S+( \S+)? ok", line) and op.get("kid") not in bound:
                 unknown_used += 1
